@@ -311,6 +311,12 @@ def match_known(pid, v, known):
             continue
         if "regex" in m and not re.search(m["regex"], v.get("what", "") + " " + json.dumps(v.get("replay", ""))[:2000]):
             continue
+        if "path_op" in m:
+            # the history that fails: the replayed path (or the step itself) contains a step of this kind
+            case = (v.get("replay") or {}).get("case") or {}
+            steps = list(case.get("path") or []) + [case.get("ev") or {}]
+            if not any(isinstance(st, dict) and st.get("op") == m["path_op"] for st in steps):
+                continue
         return k
     return None
 
